@@ -106,18 +106,24 @@ Fixpoint af_from_exp (e : exp) : option aform :=
       match af_from_exp l, af_from_exp r with Some a, Some b => Some (af_merge a b (Fin 1%Q)) | _, _ => None end
   | BinOp Sub l r =>
       match af_from_exp l, af_from_exp r with Some a, Some b => Some (af_merge a b (Fin (-1)%Q)) | _, _ => None end
+  (* a factor is a coefficient when it has no variable part (one number, or an expression of constants) *)
   | BinOp Mul l r =>
-      match as_num l with
-      | Some c => option_map (fun a => af_scale a c) (af_from_exp r)
-      | None => match as_num r with
-                | Some c => option_map (fun a => af_scale a c) (af_from_exp l)
-                | None => None
-                end
+      match af_from_exp l, af_from_exp r with
+      | Some a, Some b =>
+          match af_coeffs a with
+          | [] => Some (af_scale b (af_const a))
+          | _ => match af_coeffs b with [] => Some (af_scale a (af_const b)) | _ => None end
+          end
+      | _, _ => None
       end
   | BinOp Div l r =>
-      match as_num r with
-      | Some d => if xq_is_zero d then None
-                  else option_map (fun a => af_scale a (xq_div (Fin 1%Q) d)) (af_from_exp l)
+      match af_from_exp r with
+      | Some b =>
+          match af_coeffs b with
+          | [] => if xq_is_zero (af_const b) then None
+                  else option_map (fun a => af_scale a (xq_div (Fin 1%Q) (af_const b))) (af_from_exp l)
+          | _ => None
+          end
       | None => None
       end
   | BinOp _ _ _ => None
